@@ -711,7 +711,23 @@ def _make_boo(sysd, l, weighted, tmpdir, Nmax=None, output_phi=""):
         kw["Nmax"] = Nmax
     if output_phi:
         kw["output_phi"] = output_phi
-    return B.boo_2d(S, l, fn, ppp=np_array(sysd["ppp"]), **kw), S
+    import builtins
+    opened = []
+
+    def tracking_open(*a, **k):
+        f = builtins.open(*a, **k)
+        opened.append(f)
+        return f
+    B.open = tracking_open          # module-level name shadows the builtin inside boo.py only
+    try:
+        obj = B.boo_2d(S, l, fn, ppp=np_array(sysd["ppp"]), **kw)
+    finally:
+        del B.open
+    obj._pyvc_unclosed = [getattr(f, "name", "?") for f in opened if not f.closed]
+    for f in opened:
+        if not f.closed:
+            f.close()
+    return obj, S
 
 
 def np_array(x):
@@ -774,6 +790,8 @@ def _replay_boo(which, case, clause, model, seed):
                 want = psi_reference(sysd, l, weighted, nmax)
                 got = np.asarray(boo.ParticlePhi)
                 bad = _cmp(got, want, "ParticlePhi (definition of psi_l)")
+                if bad is None and boo._pyvc_unclosed:
+                    bad = f"files left open by lthorder: {boo._pyvc_unclosed}"
                 if bad is None and np.any(np.abs(got) > 1 + 1e-9):
                     bad = f"|psi| = {np.abs(got).max()!r} exceeds one"
                 if bad is None and out_phi:
